@@ -50,6 +50,10 @@ pub fn digests_of(jobs: &[(Cfg, Option<Vec<u8>>, u64)]) -> Vec<u64> {
 
 fn pair_configs() -> Vec<Cfg> {
     let mut v: Vec<Cfg> = (0..=5u8).map(Cfg::new).collect();
+    for (e, b) in [(true, false), (false, true), (true, true)] {
+        v.push(Cfg::new(5).flags(e, b));
+    }
+    v.push(Cfg::new(2).flags(true, false));
     v.push(Cfg::new(2).flags(true, true).muts(&FULL, 0.5, true));
     v.push(Cfg::new(5).flags(true, true).range(10, 30));
     v.push(Cfg::new(0).muts(&FULL, 1.0, false).range(10, 30));
